@@ -172,6 +172,28 @@ theorem polynomial_trajectory_exact (tau : List K) (hn : ((0:K) :: tau).Nodup) (
     rfl
   · rw [end_is_value_at_one, vpoly_of_polynomial _ hn (by simp) q (by simpa using hq)]
 
+/-- shifting every helper state by the same constant does not change any slope (`Σ_r C[r][j] = 0`) and shifts the end value by that
+constant (`Σ_r D[r] = 1`): the constraints depend on the states only through differences and the right-hand side, every degree -/
+theorem C_column_sums_zero (tau : List K) (hn : ((0:K) :: tau).Nodup) (j : Nat) (hj : j < tau.length) :
+    (((collocCoeff tau).C).map (fun row => row.getD j 0)).sum = 0 := by
+  have h := LP.interp_exact_deriv ((0:K) :: tau) hn [1] (by simp) (by simp) tau[j]
+  have hd : LP.eval (LP.deriv ([1] : List K)) tau[j] = 0 := by simp [LP.deriv, LP.derivAux]
+  have h1 : ∀ x : K, LP.eval ([1] : List K) x = 1 := by intro x; simp
+  simp only [h1, one_mul, hd] at h
+  rw [← h]
+  simp only [collocCoeff, List.map_map, nat_eq, Nat.cast_zero, List.length_cons]
+  congr 1
+  apply List.map_congr_left
+  intro r _
+  simp [List.getD_eq_getElem?_getD, hj]
+
+theorem D_sums_to_one (tau : List K) (hn : ((0:K) :: tau).Nodup) : ((collocCoeff tau).D).sum = 1 := by
+  have h := LP.interp_exact_eval ((0:K) :: tau) hn [1] (by simp) (by simp) 1
+  have h1 : ∀ x : K, LP.eval ([1] : List K) x = 1 := by intro x; simp
+  simp only [h1, one_mul] at h
+  rw [← h]
+  simp [collocCoeff, List.map_map, Function.comp_def]
+
 /-- non-vacuity: Radau points of degree 2 and a quadratic trajectory -/
 example : ((0:ℚ) :: [1/3, 1]).Nodup ∧ ([1, 2, 3] : List ℚ).length ≤ ([1/3, 1] : List ℚ).length + 1 := ⟨by norm_num, by simp⟩
 
